@@ -45,6 +45,7 @@ def exhaustive_fields(seed, tier):
 
 def c13_part(rep, tier, seed):
     configs = opscheck.gen_configs(seed * 77 + 5, 2 if tier == "quick" else 12, nlim=5 if tier == "quick" else 16)
+    configs += opsdrive.systematic_configs() + opsdrive.large_configs(nlim=5 if tier == "quick" else 16)
     configs += exhaustive_fields(seed, tier)
     # boundary-condition arrays of `base` belong to another mesh shape: the TVD term ignores BCs, so
     # replace them by defaults of the right shape
